@@ -135,16 +135,17 @@ type openState struct {
 
 // nfsClient is a small client-side protocol model for either minor version.
 type nfsClient struct {
-	w        *nfsWorld
-	minor    uint32
-	name     string
-	id       uint64
-	verifier byte
-	ownerSeq map[string]uint32 // 4.0 open-owner seqids
-	session  [16]byte
-	slotSeq  []uint32
-	slotMu   []sync.Mutex
-	opens    []*openState
+	w         *nfsWorld
+	minor     uint32
+	name      string
+	id        uint64
+	verifier  byte
+	ownerSeq  map[string]uint32 // 4.0 open-owner seqids
+	session   [16]byte
+	slotSeq   []uint32
+	slotMu    []sync.Mutex
+	opens     []*openState
+	symlinkFH []byte
 }
 
 func newClient(w *nfsWorld, minor uint32, name string, slots int) *nfsClient {
@@ -303,6 +304,24 @@ func mangleStateID(s nfs.Stateid4, how int) nfs.Stateid4 {
 }
 
 func (c *nfsClient) ioStateID(st *openState, mangle int) nfs.Stateid4 {
+	switch mangle {
+	case 4: // anonymous state ID: the server opens the file for the duration of the call
+		return nfs.Stateid4{}
+	case 5: // READ bypass state ID
+		s := nfs.Stateid4{Seqid: 0xffffffff}
+		for i := range s.Other {
+			s.Other[i] = 0xff
+		}
+		return s
+	case 6: // the lock state ID of the owner, if it has one
+		if st.lockID != nil {
+			s := *st.lockID
+			if c.minor == 1 {
+				s.Seqid = 0
+			}
+			return s
+		}
+	}
 	s := st.stateID
 	if c.minor == 1 {
 		// 4.1: seqid zero means "the current one".
@@ -432,7 +451,19 @@ func (c *nfsClient) dirOp(slot int, dirFH []byte, rng *rand.Rand, names []string
 	case 0:
 		return c.run(slot, putfh(dirFH), &nfs.NfsArgop4_OP_CREATE{Opcreate: nfs.Create4args{Objtype: &nfs.Createtype4_NF4DIR{}, Objname: name}})
 	case 1:
-		return c.run(slot, putfh(dirFH), &nfs.NfsArgop4_OP_CREATE{Opcreate: nfs.Create4args{Objtype: &nfs.Createtype4_NF4LNK{Linkdata: []byte("target")}, Objname: name}})
+		res := c.run(slot, putfh(dirFH), &nfs.NfsArgop4_OP_CREATE{Opcreate: nfs.Create4args{Objtype: &nfs.Createtype4_NF4LNK{Linkdata: []byte("target")}, Objname: name}}, &nfs.NfsArgop4_OP_GETFH{})
+		if res.Status == nfs.NFS4_OK {
+			c.symlinkFH = res.Resarray[len(res.Resarray)-1].(*nfs.NfsResop4_OP_GETFH).Opgetfh.(*nfs.Getfh4res_NFS4_OK).Resok4.Object
+		}
+		return res
+	case 8:
+		if c.symlinkFH != nil {
+			// The handle of a symbolic link is resolved through the
+			// table of stateless leaves (it is stale once every
+			// link with that target is gone).
+			return c.run(slot, putfh(c.symlinkFH), &nfs.NfsArgop4_OP_READLINK{}, &nfs.NfsArgop4_OP_GETATTR{Opgetattr: nfs.Getattr4args{AttrRequest: dirAttrRequest}})
+		}
+		return c.run(slot, putfh(dirFH), &nfs.NfsArgop4_OP_GETATTR{Opgetattr: nfs.Getattr4args{AttrRequest: dirAttrRequest}})
 	case 2:
 		return c.run(slot, putfh(dirFH), &nfs.NfsArgop4_OP_REMOVE{Opremove: nfs.Remove4args{Target: name}})
 	case 3:
@@ -445,8 +476,6 @@ func (c *nfsClient) dirOp(slot int, dirFH []byte, rng *rand.Rand, names []string
 		return c.run(slot, putfh(dirFH), &nfs.NfsArgop4_OP_LOOKUP{Oplookup: nfs.Lookup4args{Objname: name}}, &nfs.NfsArgop4_OP_GETATTR{Opgetattr: nfs.Getattr4args{AttrRequest: dirAttrRequest}})
 	case 7:
 		return c.run(slot, putfh(dirFH), &nfs.NfsArgop4_OP_LOOKUP{Oplookup: nfs.Lookup4args{Objname: name}}, &nfs.NfsArgop4_OP_SAVEFH{}, putfh(otherDir), &nfs.NfsArgop4_OP_LINK{Oplink: nfs.Link4args{Newname: name2}})
-	case 8:
-		return c.run(slot, putfh(dirFH), &nfs.NfsArgop4_OP_GETATTR{Opgetattr: nfs.Getattr4args{AttrRequest: dirAttrRequest}})
 	default:
 		return c.run(slot, putfh(dirFH), &nfs.NfsArgop4_OP_LOOKUP{Oplookup: nfs.Lookup4args{Objname: name}}, &nfs.NfsArgop4_OP_LOOKUPP{})
 	}
@@ -461,7 +490,24 @@ func (c *nfsClient) hostile(rng *rand.Rand, dirFH []byte) []*nfs.Compound4res {
 		seq := func(session [16]byte, slot, seqid uint32) nfs.NfsArgop4 {
 			return &nfs.NfsArgop4_OP_SEQUENCE{Opsequence: nfs.Sequence4args{SaSessionid: session, SaSequenceid: seqid, SaSlotid: slot, SaCachethis: true}}
 		}
-		switch rng.IntN(9) {
+		switch rng.IntN(10) {
+		case 9: // OPEN by file handle (CLAIM_FH) and a reclaim nobody can claim
+			live := c.liveOpens()
+			if len(live) == 0 {
+				return nil
+			}
+			st := live[rng.IntN(len(live))]
+			open := func(owner string, claim nfs.OpenClaim4) *nfs.Compound4res {
+				return c.run(0, putfh(st.fh), &nfs.NfsArgop4_OP_OPEN{Opopen: nfs.Open4args{ShareAccess: nfs.OPEN4_SHARE_ACCESS_READ, ShareDeny: nfs.OPEN4_SHARE_DENY_NONE,
+					Owner: nfs.OpenOwner4{Clientid: c.id, Owner: []byte(owner)}, Openhow: &nfs.Openflag4_default{}, Claim: claim}})
+			}
+			res := open(st.owner, &nfs.OpenClaim4_CLAIM_FH{})
+			if res.Status == nfs.NFS4_OK {
+				if ok, isOK := res.Resarray[len(res.Resarray)-1].(*nfs.NfsResop4_OP_OPEN).Opopen.(*nfs.Open4res_NFS4_OK); isOK {
+					st.stateID = ok.Resok4.Stateid
+				}
+			}
+			return []*nfs.Compound4res{res, open("nobody", &nfs.OpenClaim4_CLAIM_PREVIOUS{DelegateType: nfs.OPEN_DELEGATE_NONE})}
 		case 7: // BIND_CONN_TO_SESSION, known and unknown session
 			bad := c.session
 			bad[5] ^= 0xff
@@ -575,6 +621,10 @@ func (c *nfsClient) step(rng *rand.Rand, slot int, dirs [][]byte, hostile bool) 
 	if hostile && rng.IntN(4) == 0 {
 		mangle = 1 + rng.IntN(3)
 	}
+	ioMangle := mangle
+	if hostile && rng.IntN(3) == 0 {
+		ioMangle = 4 + rng.IntN(3)
+	}
 	one := func(r *nfs.Compound4res) []*nfs.Compound4res {
 		if r == nil {
 			return nil
@@ -592,17 +642,25 @@ func (c *nfsClient) step(rng *rand.Rand, slot int, dirs [][]byte, hostile bool) 
 		r, _ := c.open(slot, dir, owners[rng.IntN(2)], files[rng.IntN(3)], rng.IntN(3), access, m)
 		return one(r)
 	case k <= 6:
-		return one(c.write(slot, live[rng.IntN(len(live))], mangle))
+		return one(c.write(slot, live[rng.IntN(len(live))], ioMangle))
 	case k <= 8:
-		return one(c.read(slot, live[rng.IntN(len(live))], mangle))
+		return one(c.read(slot, live[rng.IntN(len(live))], ioMangle))
 	case k == 9:
 		return one(c.setattrSize(slot, live[rng.IntN(len(live))], byte(rng.IntN(40))))
 	case k <= 11:
 		lt := []nfs.NfsLockType4{nfs.READ_LT, nfs.WRITE_LT}[rng.IntN(2)]
-		return one(c.lock(slot, live[rng.IntN(len(live))], lt, uint64(rng.IntN(4))*10, uint64(1+rng.IntN(3))*10, mangle))
+		length := uint64(1+rng.IntN(3)) * 10
+		if hostile && rng.IntN(8) == 0 {
+			length = 0 // invalid range
+		}
+		return one(c.lock(slot, live[rng.IntN(len(live))], lt, uint64(rng.IntN(4))*10, length, mangle))
 	case k == 12:
 		st := live[rng.IntN(len(live))]
-		return append(one(c.lockt(slot, st, 0, 100)), one(c.locku(slot, st, uint64(rng.IntN(4))*10, 10))...)
+		tl, ul := uint64(100), uint64(10)
+		if hostile && rng.IntN(4) == 0 {
+			tl, ul = 0, 0
+		}
+		return append(one(c.lockt(slot, st, 0, tl)), one(c.locku(slot, st, uint64(rng.IntN(4))*10, ul))...)
 	case k <= 14:
 		return one(c.close(slot, live[rng.IntN(len(live))], mangle))
 	case k == 15:
